@@ -37,58 +37,70 @@ def match_known(pr, prop, known):
     return None
 
 
+def _run_one_stage(prop, mod, st, only_stage, quiet, total, stage_info, inconclusive, group_of):
+    if only_stage and st['label'] != only_stage:
+        return
+    label = st['label']
+    if 'custom' in st:
+        # stage that is not a driver run (e.g. the build matrix of C16)
+        sr = st['custom']()
+    else:
+        try:
+            if (st.get('tool') or '').startswith('miri:'):
+                build.ensure_miri(st['tool'][5:])
+                binary = 'miri'
+            else:
+                binary = build.ensure_built(st['variant'])
+        except build.BuildError as e:
+            if st.get('build_failure_is_violation'):
+                pr = Problem({prop}, 'configuration does not build: ' + st['variant'], e.first_error())
+                pr.cmd = 'build ' + st['variant']
+                pr.variant = st['variant']
+                total.problems.append(pr)
+            else:
+                inconclusive.append('variant %s does not build: %s' % (st['variant'], e.first_error()))
+            return
+        groups = st['groups']
+        for g in groups:
+            if len(g) > 1:
+                for c in g:
+                    group_of[id(c)] = g
+        sr = runner.run_stage(st['variant'], groups, tool=st.get('tool'), prefix=st.get('prefix'),
+                              env=st.get('env'), timeout=st.get('timeout', 600), binary=binary, mem=st.get('mem', 'default'), keep_raw=st.get('keep_raw', False), shard_min=st.get('shard_min', 200))
+        if st.get('post'):
+            st['post'](sr)
+    if not quiet:
+        print('[%s] stage %-22s variant=%-10s tool=%-8s cmds=%d events=%d evals=%d cells=%d problems=%d %.1fs' % (
+            prop, label, st.get('variant'), st.get('tool'), sum(len(g) for g in st.get('groups', [])), sr.events,
+            sr.evaluations, len(sr.cells), len(sr.problems), sr.wall), file=sys.stderr)
+    stage_info.append({'label': label, 'variant': st.get('variant'), 'tool': st.get('tool'),
+                       'events': sr.events, 'evaluations': sr.evaluations, 'wall_s': round(sr.wall, 2)})
+    # coverage floors are per stage when the stage names them
+    for name in st.get('floors', []):
+        if sr.probes.get(name, 0) == 0:
+            inconclusive.append('coverage floor missed in stage %s: probe %s was never hit' % (label, name))
+    total.merge(sr)
+
+
 def run_property(prop, tier, seed, only_stage=None, quiet=False):
     mod = load(prop)
     t0 = time.time()
     known = load_known()
-    stages = mod.stages(tier, seed)
+    # thorough tier: repeat the whole staged workload over several derived seeds (bounded memory: one at a time)
+    nrep = getattr(mod, 'THOROUGH_SEEDS', 1) if tier == 'thorough' else 1
+    seeds = [seed + 104729 * i for i in range(nrep)]
     total = runner.StageResult()
     stage_info = []
     inconclusive = []
     group_of = {}
-    for st in stages:
-        if only_stage and st['label'] != only_stage:
-            continue
-        label = st['label']
-        if 'custom' in st:
-            # stage that is not a driver run (e.g. the build matrix of C16)
-            sr = st['custom']()
-        else:
-            try:
-                if (st.get('tool') or '').startswith('miri:'):
-                    build.ensure_miri(st['tool'][5:])
-                    binary = 'miri'
-                else:
-                    binary = build.ensure_built(st['variant'])
-            except build.BuildError as e:
-                if st.get('build_failure_is_violation'):
-                    pr = Problem({prop}, 'configuration does not build: ' + st['variant'], e.first_error())
-                    pr.cmd = 'build ' + st['variant']
-                    pr.variant = st['variant']
-                    total.problems.append(pr)
-                else:
-                    inconclusive.append('variant %s does not build: %s' % (st['variant'], e.first_error()))
-                continue
-            groups = st['groups']
-            for g in groups:
-                if len(g) > 1:
-                    for c in g:
-                        group_of[id(c)] = g
-            sr = runner.run_stage(st['variant'], groups, tool=st.get('tool'), prefix=st.get('prefix'),
-                                  env=st.get('env'), timeout=st.get('timeout', 600), binary=binary, mem=st.get('mem', 'default'), keep_raw=st.get('keep_raw', False), shard_min=st.get('shard_min', 200))
-            if st.get('post'):
-                st['post'](sr)
-        if not quiet:
-            print('[%s] stage %-22s variant=%-10s tool=%-8s cmds=%d events=%d evals=%d cells=%d problems=%d %.1fs' % (
-                prop, label, st.get('variant'), st.get('tool'), sum(len(g) for g in st.get('groups', [])), sr.events,
-                sr.evaluations, len(sr.cells), len(sr.problems), sr.wall), file=sys.stderr)
-        stage_info.append({'label': label, 'variant': st.get('variant'), 'tool': st.get('tool'),
-                           'events': sr.events, 'evaluations': sr.evaluations, 'wall_s': round(sr.wall, 2)})
-        # coverage floors are per stage when the stage names them
-        for name in st.get('floors', []):
-            if sr.probes.get(name, 0) == 0:
-                inconclusive.append('coverage floor missed in stage %s: probe %s was never hit' % (label, name))
-        total.merge(sr)
+    for sd in seeds:
+        for st in mod.stages(tier, sd):
+            if nrep > 1:
+                st['label'] = '%s@%d' % (st['label'], sd)
+            # run immediately so that the next seed's workload is generated only after this one is released
+            yield_stage = st
+            _run_one_stage(prop, mod, yield_stage, only_stage, quiet, total, stage_info, inconclusive, group_of)
+            st.pop('groups', None)
     inconclusive += total.inconclusive
 
     mine, foreign, knownhits = [], [], []
@@ -116,6 +128,7 @@ def run_property(prop, tier, seed, only_stage=None, quiet=False):
             'probes_hit': dict(sorted(total.probes.items())),
             'stages': stage_info,
             'tree_hash': build.tree_hash(),
+            'seeds': seeds,
             'tool_reports': total.tool_reports,
             'foreign_observations': sorted({'%s: %s' % (','.join(sorted(p.props)), p.what) for p in foreign})[:20],
             'known_findings_seen': sorted({k['id'] for k, _ in knownhits}),
